@@ -5,7 +5,9 @@ import (
 	"fmt"
 	"math/rand"
 	"runtime"
+	"sort"
 	"strconv"
+	"strings"
 	"sync"
 	"time"
 
@@ -28,6 +30,13 @@ import (
 // earlier than t0 + d - eps - 2 ticks, eps = 10 ms being the allowance for a running updater that
 // woke late (the +period slack of deadlineTicks covers one period of staleness).  That is
 // Props.C14.conc_no_early_deadline read off the real code.
+//
+// Correspondence (Model/ClockConc.lean, `ClockConc.simulate` through the driver request `(c14 conc …)`):
+// the clock state seen right before the schedule (VerifClockState) and the schedule with the real
+// time measured at every step (call, point 1, point 2, return) are replayed on the interleaving model,
+// which lets the updater wake on the ideal schedule between the steps.  Per call the model's deadline
+// and path (returned lock-free / took the mutex) and the clock after its return are compared with what
+// the real call returned and left behind; tolerances below.
 
 type c14SchedStep struct {
 	Op string `json:"op"` // begin | adv | sleep
@@ -42,6 +51,45 @@ type c14Sched struct {
 	IdleMs   int            `json:"idle_ms"`
 	D        []int64        `json:"d"` // timeout of goroutine i
 	Steps    []c14SchedStep `json:"steps"`
+}
+
+// Tolerances of the correspondence, all in ticks (2^20 ns).
+//
+// The wake-ups of the real updater are not observed; the model places them on the ideal schedule.  A
+// deadline computed from the time of a *running* clock therefore differs by the unknown phase (at most
+// one period), by how late the real updater woke (eps, the same 10 ms assumption as the oracle's) and
+// by one tick of rounding:  |real - model| <= 1 + ceil((period + eps) / tick).
+//
+// A deadline computed on the refresh path (no updater before the call: the locked section re-reads the
+// wall clock) involves no updater at all: the model reads the clock at the measured return time T of
+// the call, the real code read it somewhere between Lo (the goroutine left its last schedule point) and
+// T, and the reconstruction of fast.start from VerifClockState is exact to a few µs:
+//     model - 1 - ceil((T - Lo) / tick) <= real <= model + 1.
+const c14ConcEps = c14EpsEarly
+
+func c14ConcTolRunning(period int64) int64 { return 1 + (period+c14ConcEps+c14Tick-1)/c14Tick }
+
+// one observed step of a schedule
+type c14SchedEv struct {
+	G  int    `json:"g"`
+	Op string `json:"op"` // begin | step
+	P  int    `json:"p"`  // step: the point reached (1, 2, 3); 4 = returned
+	T  int64  `json:"t"`  // c14Now() at that moment
+	Lo int64  `json:"lo"` // P = 4: when the goroutine left its last schedule point (or was called)
+	// the clock right after the event, read by the driver of the schedule while the goroutine stands
+	// still (not for points a goroutine only passes through)
+	Snap    bool  `json:"snap"`
+	Cur     int64 `json:"cur"`
+	Ce      int64 `json:"ce"`
+	Running bool  `json:"running"`
+}
+
+type c14SchedTrace struct {
+	// VerifClockState right before the schedule; StartNs, Now on the c14Now() axis
+	Cur, Ce          int64
+	Running, Started bool
+	StartNs, Now     int64
+	Evs              []c14SchedEv
 }
 
 func c14Goid() int64 {
@@ -62,6 +110,9 @@ type c14SchedG struct {
 	t0     time.Time
 	dl     int64
 	path   []int
+	idx    int
+	left   int64 // c14Now() when it last left a schedule point
+	lastEv int   // index of its latest event in the trace
 }
 
 type c14SchedCall struct {
@@ -79,23 +130,47 @@ type c14SchedCall struct {
 	CurAtExit int64
 }
 
-func c14SchedRun(cs c14Sched) (calls []c14SchedCall, errs string) {
+func c14SchedRun(cs c14Sched) (calls []c14SchedCall, tr *c14SchedTrace, errs string) {
+	fail := func(msg string) ([]c14SchedCall, *c14SchedTrace, string) { return nil, nil, msg }
 	if !c14StopClock() {
-		return nil, "StopTimeoutClock did not return within 5s"
+		return fail("StopTimeoutClock did not return within 5s")
 	}
 	regexp2.SetTimeoutCheckPeriod(time.Duration(cs.PeriodNs))
 	// the clock has been started at least once, so that "stopped" means a stale time
 	_ = regexp2.VerifMakeDeadline(int64(20 * time.Millisecond))
 	if cs.Pre == "stopped" {
 		if !c14StopClock() {
-			return nil, "StopTimeoutClock did not return within 5s"
+			return fail("StopTimeoutClock did not return within 5s")
 		}
 	}
 	time.Sleep(time.Duration(cs.IdleMs) * time.Millisecond)
 
+	tr = &c14SchedTrace{}
+	{
+		tb := c14Now()
+		cur, ce, running, started, since := regexp2.VerifClockState()
+		ta := c14Now()
+		tr.Cur, tr.Ce, tr.Running, tr.Started, tr.StartNs, tr.Now = cur, ce, running, started, (tb+ta)/2-since, ta
+	}
+
 	var mu sync.Mutex
 	byGoid := map[int64]*c14SchedG{}
+	record := func(g *c14SchedG, ev c14SchedEv) {
+		mu.Lock()
+		tr.Evs = append(tr.Evs, ev)
+		g.lastEv = len(tr.Evs) - 1
+		mu.Unlock()
+	}
+	// the clock after the event the goroutine has just reported (it stands still, outside the mutex)
+	snap := func(g *c14SchedG) {
+		cur, ce, running, _, _ := regexp2.VerifClockState()
+		mu.Lock()
+		ev := &tr.Evs[g.lastEv]
+		ev.Snap, ev.Cur, ev.Ce, ev.Running = true, cur, ce, running
+		mu.Unlock()
+	}
 	hook := func(p int) {
+		t := c14Now()
 		mu.Lock()
 		g := byGoid[c14Goid()]
 		mu.Unlock()
@@ -103,10 +178,12 @@ func c14SchedRun(cs c14Sched) (calls []c14SchedCall, errs string) {
 			return // a makeDeadline that is not part of the schedule (none expected)
 		}
 		g.path = append(g.path, p)
+		record(g, c14SchedEv{G: g.idx, Op: "step", P: p, T: t})
 		if p >= g.target {
 			g.at <- p
 			g.target = <-g.resume
 		}
+		g.left = c14Now()
 	}
 	regexp2.VerifClockPoint.Store(&hook)
 	defer regexp2.VerifClockPoint.Store(nil)
@@ -126,9 +203,9 @@ func c14SchedRun(cs c14Sched) (calls []c14SchedCall, errs string) {
 			time.Sleep(time.Duration(st.Ms) * time.Millisecond)
 		case "begin":
 			if st.G >= len(gs) || gs[st.G] != nil {
-				return nil, "bad schedule: begin"
+				return fail("bad schedule: begin")
 			}
-			g := &c14SchedG{resume: make(chan int), at: make(chan int, 1), target: 1}
+			g := &c14SchedG{resume: make(chan int), at: make(chan int, 1), target: 1, idx: st.G}
 			gs[st.G] = g
 			d := cs.D[st.G]
 			ready := make(chan struct{})
@@ -138,16 +215,20 @@ func c14SchedRun(cs c14Sched) (calls []c14SchedCall, errs string) {
 				mu.Unlock()
 				close(ready)
 				g.t0 = time.Now()
+				g.left = c14Now()
+				record(g, c14SchedEv{G: g.idx, Op: "begin", T: g.left})
 				g.dl = regexp2.VerifMakeDeadline(d)
+				record(g, c14SchedEv{G: g.idx, Op: "step", P: 4, T: c14Now(), Lo: g.left})
 				g.at <- 4
 			}()
 			<-ready
 			if _, ok := wait(g); !ok {
-				return nil, "goroutine did not reach its first schedule point within 5s"
+				return fail("goroutine did not reach its first schedule point within 5s")
 			}
+			snap(g)
 		case "adv":
 			if st.G >= len(gs) || gs[st.G] == nil {
-				return nil, "bad schedule: adv"
+				return fail("bad schedule: adv")
 			}
 			g := gs[st.G]
 			if g.target == 5 {
@@ -156,8 +237,9 @@ func c14SchedRun(cs c14Sched) (calls []c14SchedCall, errs string) {
 			g.resume <- st.To
 			p, ok := wait(g)
 			if !ok {
-				return nil, fmt.Sprintf("goroutine %d did not reach point %d within 5s", st.G, st.To)
+				return fail(fmt.Sprintf("goroutine %d did not reach point %d within 5s", st.G, st.To))
 			}
+			snap(g)
 			if p == 4 {
 				g.target = 5
 			}
@@ -170,8 +252,9 @@ func c14SchedRun(cs c14Sched) (calls []c14SchedCall, errs string) {
 			for {
 				p, ok := wait(g)
 				if !ok {
-					return nil, "goroutine did not return within 5s"
+					return fail("goroutine did not return within 5s")
 				}
+				snap(g)
 				if p == 4 {
 					break
 				}
@@ -183,7 +266,7 @@ func c14SchedRun(cs c14Sched) (calls []c14SchedCall, errs string) {
 	_, clockEnd, _, started, since := regexp2.VerifClockState()
 	now := time.Now()
 	if !started {
-		return nil, "clock not started after the schedule"
+		return fail("clock not started after the schedule")
 	}
 	start := now.Add(-time.Duration(since))
 	for i, g := range gs {
@@ -212,7 +295,182 @@ func c14SchedRun(cs c14Sched) (calls []c14SchedCall, errs string) {
 		}
 		break
 	}
-	return calls, ""
+	return calls, tr, ""
+}
+
+// correspondence with the interleaving model ------------------------------------------------------
+
+func c14ConcDriverLine(cs c14Sched, tr *c14SchedTrace) string {
+	b2i := func(b bool) int {
+		if b {
+			return 1
+		}
+		return 0
+	}
+	parts := make([]string, len(tr.Evs))
+	for i, ev := range tr.Evs {
+		if ev.Op == "begin" {
+			parts[i] = fmt.Sprintf("(begin %d %d %d)", ev.G, cs.D[ev.G], ev.T)
+		} else {
+			parts[i] = fmt.Sprintf("(step %d %d)", ev.G, ev.T)
+		}
+	}
+	return fmt.Sprintf("(c14 conc (period %d) (init %d %d %d %d %d %d) (events %s))", cs.PeriodNs,
+		tr.Cur, tr.Ce, b2i(tr.Running), b2i(tr.Started), tr.StartNs, tr.Now, strings.Join(parts, " "))
+}
+
+// what the model says after one event: (o id moved pc e tMade wasRunning current clockEnd running)
+type c14ConcObs struct {
+	G                  int
+	Moved              bool
+	PC                 int
+	E, TMade           int64
+	WasRunning         bool
+	Cur, Ce            int64
+	Running            bool
+}
+
+func c14ConcParse(ans string, n int) ([]c14ConcObs, error) {
+	if !strings.HasPrefix(ans, "(ok") {
+		return nil, fmt.Errorf("model answered %s", ans)
+	}
+	var obs []c14ConcObs
+	body := strings.TrimSuffix(strings.TrimPrefix(ans, "(ok"), ")")
+	for _, item := range strings.Split(body, "(") {
+		f := strings.Fields(strings.TrimRight(strings.TrimSpace(item), ")"))
+		if len(f) == 0 {
+			continue
+		}
+		if f[0] != "o" || len(f) != 10 {
+			return nil, fmt.Errorf("unexpected item %q in model answer", item)
+		}
+		var v [9]int64
+		for i := range v {
+			x, err := strconv.ParseInt(f[i+1], 10, 64)
+			if err != nil {
+				return nil, fmt.Errorf("bad number %q in model answer", f[i+1])
+			}
+			v[i] = x
+		}
+		obs = append(obs, c14ConcObs{G: int(v[0]), Moved: v[1] == 1, PC: int(v[2]), E: v[3], TMade: v[4], WasRunning: v[5] == 1, Cur: v[6], Ce: v[7], Running: v[8] == 1})
+	}
+	if len(obs) != n {
+		return nil, fmt.Errorf("model answered %d observations for %d events", len(obs), n)
+	}
+	return obs, nil
+}
+
+func c14ConcDiffClass(d, tol int64) string {
+	switch {
+	case d < -tol:
+		return "<-tol"
+	case d > tol:
+		return ">tol"
+	case d < -3:
+		return "-tol..-4"
+	case d > 3:
+		return "+4..tol"
+	case d < -1:
+		return "-3..-2"
+	case d > 1:
+		return "+2..3"
+	}
+	return fmt.Sprintf("%+d", d)
+}
+
+type c14ConcFinding struct {
+	Key, Summary, Expected, Got string
+	G                            int
+}
+
+// c14ConcCompare replays the trace on the model and compares, per call: the path, the deadline, and the
+// clock (clockEnd, running) right after the return.
+func c14ConcCompare(c *core.Ctx, cs c14Sched, tr *c14SchedTrace, calls []c14SchedCall) (fs []c14ConcFinding, buckets []string, err error) {
+	ans, err := c.RunDriver([]string{c14ConcDriverLine(cs, tr)})
+	if err != nil {
+		return nil, nil, err
+	}
+	obs, err := c14ConcParse(ans[0], len(tr.Evs))
+	if err != nil {
+		return nil, nil, err
+	}
+	tol := c14ConcTolRunning(cs.PeriodNs)
+	dl := map[int]int64{}
+	for _, cl := range calls {
+		dl[cl.G] = cl.Dl
+	}
+	type gst struct {
+		lastPC        int
+		locked        bool // the model took the mutex
+		lockedAtRet   bool // … in the step observed as the return (not at a point between two sections)
+		lockedRunning bool // an updater was running in the model right before its locked section
+	}
+	gsts := map[int]*gst{}
+	prevRunning := tr.Running // the real clock as last seen before the event
+	abs := func(x int64) int64 {
+		if x < 0 {
+			return -x
+		}
+		return x
+	}
+	for i, ev := range tr.Evs {
+		o := obs[i]
+		st := gsts[ev.G]
+		if st == nil {
+			st = &gst{}
+			gsts[ev.G] = st
+		}
+		if o.G != ev.G {
+			return nil, nil, fmt.Errorf("model answer %d is about goroutine %d, event about %d", i, o.G, ev.G)
+		}
+		if ev.Op == "step" && o.Moved && st.lastPC == 2 {
+			st.locked, st.lockedRunning, st.lockedAtRet = true, o.WasRunning, ev.P == 4
+		}
+		st.lastPC = o.PC
+		if ev.Op == "step" && ev.P == 4 {
+			add := func(key, sum, exp, got string) {
+				fs = append(fs, c14ConcFinding{Key: key, G: ev.G, Summary: fmt.Sprintf("forced interleaving of %d makeDeadline calls (clock %s, idle %dms), goroutine %d (timeout %dms): %s", len(cs.D), cs.Pre, cs.IdleMs, ev.G, cs.D[ev.G]/c14Ms, sum), Expected: exp, Got: got})
+			}
+			real := dl[ev.G]
+			if o.PC != 4 {
+				add("conc-steps", fmt.Sprintf("the real call has returned, the model's call stands at point %d after the same number of steps", o.PC), "returned", fmt.Sprintf("point %d", o.PC))
+				prevRunning = ev.Running
+				continue
+			}
+			// path
+			realRestart := ev.Snap && !prevRunning && ev.Running // only this goroutine ran in between: it took the mutex
+			switch {
+			case realRestart && !st.locked:
+				add("conc-path", "the real call restarted the updater (it took the mutex); the model's call returned lock-free", "lock-free return, clock untouched", "updater started by the call")
+			case st.locked && !st.lockedRunning && ev.Snap && !prevRunning && !ev.Running:
+				add("conc-path", "the model's call took the mutex and restarted the updater; the real call returned and no updater is running", "updater running after the call", "no updater")
+			}
+			// deadline
+			sharp := st.locked && st.lockedAtRet && !st.lockedRunning && !prevRunning
+			lo, hi, class := o.E-tol, o.E+tol, "running"
+			if sharp {
+				lo, hi, class = o.E-1-(ev.T-ev.Lo+c14Tick-1)/c14Tick, o.E+1, "refresh"
+			}
+			path := "lock-free"
+			if st.locked {
+				path = "locked-" + class
+			}
+			buckets = append(buckets, "model-path:"+path, "real-minus-model:"+class+":"+c14ConcDiffClass(real-o.E, tol))
+			if real < lo || real > hi {
+				add("conc-deadline:"+class, fmt.Sprintf("returned the deadline %d ticks; the model (%s, deadline made at %dns) returns %d", real, path, o.TMade, o.E),
+					fmt.Sprintf("deadline in [%d, %d] ticks", lo, hi), fmt.Sprintf("%d ticks (%+d)", real, real-o.E))
+			}
+			// the clock after the return
+			if ev.Snap && abs(ev.Ce-o.Ce) > tol {
+				add("conc-clockend", fmt.Sprintf("clockEnd after the call is %d ticks, in the model %d (model path %s, model deadline %d, real deadline %d)", ev.Ce, o.Ce, path, o.E, real),
+					fmt.Sprintf("clockEnd within %d ticks of %d", tol, o.Ce), fmt.Sprintf("%d ticks (%+d)", ev.Ce, ev.Ce-o.Ce))
+			}
+		}
+		if ev.Snap {
+			prevRunning = ev.Running
+		}
+	}
+	return fs, buckets, nil
 }
 
 func c14SchedCheck(c *core.Ctx, cases []c14Sched) []core.Outcome {
@@ -232,13 +490,17 @@ func c14SchedCheck(c *core.Ctx, cases []c14Sched) []core.Outcome {
 		}
 		var worst *c14SchedCall
 		confirmed := 0
-		// a stale deadline is confirmed by running the schedule again (real time is part of it)
+		var corr map[string]c14ConcFinding // correspondence findings (key@goroutine) seen in every run so far
+		tries := 0
+		// a stale deadline - and a disagreement with the model - is confirmed by running the schedule
+		// again (real time is part of it)
 		for try := 0; try < 3; try++ {
-			calls, errs := c14SchedRun(cs)
+			calls, tr, errs := c14SchedRun(cs)
 			if errs != "" {
 				o.Fail = &core.Failure{Kind: "impl-violation", Key: "sched-hang", Summary: errs, Expected: "every makeDeadline call returns", Got: "blocked"}
 				break
 			}
+			tries++
 			var w *c14SchedCall
 			for k := range calls {
 				cl := &calls[k]
@@ -260,17 +522,61 @@ func c14SchedCheck(c *core.Ctx, cases []c14Sched) []core.Outcome {
 					w = cl
 				}
 			}
-			if w == nil || o.Fail != nil {
+			// the same run on the model
+			fs, buckets, err := c14ConcCompare(c, cs, tr, calls)
+			if err != nil {
+				if o.Fail == nil {
+					o.Fail = core.DriverFailure(err)
+				}
 				break
 			}
-			confirmed++
-			worst = w
+			if try == 0 {
+				o.Buckets = append(o.Buckets, buckets...)
+			} else {
+				o.Buckets = append(o.Buckets, "rerun")
+			}
+			seen := map[string]c14ConcFinding{}
+			for _, f := range fs {
+				k := fmt.Sprintf("%s@%d", f.Key, f.G)
+				if _, ok := seen[k]; !ok {
+					seen[k] = f
+				}
+			}
+			if try == 0 {
+				corr = seen
+			} else {
+				for k, f := range corr {
+					if _, ok := seen[k]; !ok {
+						delete(corr, k)
+						o.Buckets = append(o.Buckets, "unconfirmed:"+f.Key)
+						if len(c.Result.Notes) < 12 {
+							c.Result.Notes = append(c.Result.Notes, fmt.Sprintf("C14 leg I: disagreement with the model not confirmed by re-running the schedule (scheduling noise, not counted): %s: %s (expected %s, got %s)", f.Key, f.Summary, f.Expected, f.Got))
+						}
+					}
+				}
+			}
+			if w != nil {
+				confirmed++
+				worst = w
+			}
+			if o.Fail != nil || (confirmed != tries && len(corr) == 0) {
+				break
+			}
 		}
 		o.Buckets = append(o.Buckets, "pre:"+cs.Pre, fmt.Sprintf("goroutines:%d", len(cs.D)))
 		if o.Fail == nil && confirmed == 3 {
 			o.Fail = &core.Failure{Kind: "impl-violation", Key: "early-deadline:forced-interleaving",
 				Summary:  fmt.Sprintf("forced interleaving of %d makeDeadline calls (clock %s, idle %dms): the call of goroutine %d (timeout %dms) began %dms after the clock's origin and was handed the deadline %d ticks = %dms — %dms earlier than t0 + d (seen in 3 of 3 runs of the schedule)", len(cs.D), cs.Pre, cs.IdleMs, worst.G, worst.D/c14Ms, worst.T0Ns/c14Ms, worst.Dl, worst.Dl*c14Tick/c14Ms, worst.LagNs/c14Ms),
 				Expected: fmt.Sprintf("deadline >= t0 + d - eps - 2 ticks (eps = %dms)", c14EpsEarly/c14Ms), Got: fmt.Sprintf("deadline %dns before t0 + d", worst.LagNs)}
+		}
+		if o.Fail == nil && tries == 3 && len(corr) > 0 {
+			keys := make([]string, 0, len(corr))
+			for k := range corr {
+				keys = append(keys, k)
+			}
+			sort.Strings(keys)
+			f := corr[keys[0]]
+			o.Fail = &core.Failure{Kind: "correspondence-break", Key: f.Key, Summary: f.Summary + " [seen for this goroutine in 3 of 3 runs of the schedule; all confirmed class@goroutine: " + strings.Join(keys, ", ") + "]", Expected: f.Expected, Got: f.Got}
 		}
 	}
 	return outs
@@ -304,8 +610,8 @@ func c14SchedGen(rng *rand.Rand, i int) c14Sched {
 func c14SchedLeg(c *core.Ctx) {
 	h := int64(time.Hour)
 	core.RunLeg(c, core.Leg[c14Sched]{
-		Name: "I", Kind: "oracle",
-		Rule: "forced interleavings on the real clock through the schedule points of the verif build (after the clockEnd read, after the time read, between critical sections): 2-3 concurrent makeDeadline calls (timeouts 30ms, 100ms, 1h) on a clock that is stopped (stale time, idle 0/40/140ms) or running, each goroutine advanced from point to point in a random order with sleeps of 0-60ms between steps. Oracle: no call is handed a deadline earlier than t0 + d - 10ms - 2 ticks (t0 = real time at which the call began); a finding counts when the schedule shows it in 3 of 3 runs; and every deadline handed out is covered by clockEnd — if one is not, the leg waits for the updater to leave its loop and reports the deadline that can no longer be reached. Lean: Props.C14.conc_no_early_deadline over Model/ClockConc.lean. non-trivial = more than one call",
+		Name: "I", Kind: "oracle+correspondence",
+		Rule: "forced interleavings on the real clock through the schedule points of the verif build (after the clockEnd read, after the time read, between critical sections): 2-3 concurrent makeDeadline calls (timeouts 30ms, 100ms, 1h) on a clock that is stopped (stale time, idle 0/40/140ms) or running, each goroutine advanced from point to point in a random order with sleeps of 0-60ms between steps. Oracle: no call is handed a deadline earlier than t0 + d - 10ms - 2 ticks (t0 = real time at which the call began); a finding counts when the schedule shows it in 3 of 3 runs; and every deadline handed out is covered by clockEnd — if one is not, the leg waits for the updater to leave its loop and reports the deadline that can no longer be reached. Lean: Props.C14.conc_no_early_deadline over Model/ClockConc.lean. Correspondence: the clock state read right before the schedule (VerifClockState) and the schedule with the real time measured at the call, at each schedule point and at the return of every goroutine are replayed on the interleaving model (ClockConc.simulate, driver request c14 conc; the updater wakes on the ideal schedule between the observed steps); per call the model's path, deadline and the clock after the return are compared with the real ones: deadline within 1 + ceil((period+10ms)/tick) ticks when it was computed from a running clock's time, within [model - 1 - ceil((T-Lo)/tick), model + 1] on the refresh path (T, Lo: measured return time and time the goroutine left its last schedule point), clockEnd after the return within the first tolerance, updater restarted by the call iff the model's call took the mutex on a stopped clock; a disagreement counts when the same class recurs for the same goroutine in 3 of 3 runs. non-trivial = more than one call",
 		Corpus: []c14Sched{
 			// B reads the stale time, A restarts the clock completely, B goes on (the race fixed by 648a49f)
 			{PeriodNs: c14Ms, Pre: "stopped", IdleMs: 140, D: []int64{100 * c14Ms, 100 * c14Ms}, Steps: []c14SchedStep{{Op: "begin", G: 1}, {Op: "adv", G: 1, To: 2}, {Op: "begin", G: 0}, {Op: "adv", G: 0, To: 4}, {Op: "adv", G: 1, To: 4}}},
